@@ -1000,7 +1000,37 @@ func c01Bounds(w *World, r *Report, a *FsmA) {
 			case strings.HasSuffix(n, ".Iterator).SeekPrefixGE"), strings.HasSuffix(n, ").Get"):
 				exact = true
 				ob.Site(in.Pos(), "single-key read uses "+shortName(n))
-			case strings.HasSuffix(n, ".Iterator).SeekGE"), strings.HasSuffix(n, ".Iterator).First"), strings.HasSuffix(n, ".Iterator).SeekLT"):
+			case strings.HasSuffix(n, ".Iterator).SeekGE"):
+				// exact only if the hit is used under an equality test of iter.Key() with the sought key
+				ob.Site(in.Pos(), "single-key read uses "+shortName(n))
+				sought := Expr(c.Args[1])
+				ctx := &ExprCtx{}
+				wk := &Walk{
+					Target: func(x ssa.Instruction) bool {
+						if al, ok := x.(*ssa.Alloc); ok && typeIs(al.Type(), pbPkg, "KeyValue") {
+							return true
+						}
+						return isCallTo(x, "(*"+pebblePath+".Iterator).Value")
+					},
+					EdgeOK: func(b *ssa.BasicBlock, k int) bool {
+						for _, l := range ctx.EdgeLits(b, k) {
+							if l.Kind == "eq" && !l.Neg && strings.Contains(l.A+"|"+l.B, ".Iterator).Key(") && (l.A == sought || l.B == sought) {
+								return false
+							}
+							// the not-found edge of the seek itself
+							if l.Kind == "bool" && l.Neg && strings.Contains(l.A, ".Iterator).SeekGE(") {
+								return false
+							}
+						}
+						return true
+					},
+				}
+				if p := wk.Find(after(in)); p != nil {
+					ob.Violate("single-read-inexact", in.Pos(), "the single-key read positions with SeekGE and uses the hit without an equality test of the found key: a missing key answers with its successor", w.PathString(p)...)
+				} else {
+					exact = true
+				}
+			case strings.HasSuffix(n, ".Iterator).First"), strings.HasSuffix(n, ".Iterator).SeekLT"):
 				ob.Site(in.Pos(), "single-key read uses "+shortName(n))
 				ob.Violate("single-read-inexact", in.Pos(), "the single-key read positions with "+shortName(n)+": a missing key answers with its successor")
 			}
@@ -1050,6 +1080,7 @@ func c01Bounds(w *World, r *Report, a *FsmA) {
 	} else {
 		ob.Undecided("anchor/split", "pebble.split not found")
 	}
+	checkPooledEscapes(w, ob, fsmRel)
 	ob.NeedFloor(6)
 }
 
